@@ -50,7 +50,7 @@ REAL_STUB = {
     "real": ["jinja2 environment/runtime/compiled templates/sandbox/debug traceback rewriting", "asyncio tasks (async mode)"],
     "stub": ["data objects (Probe classes raising at the k-th event)", "event loop scheduling + clock in async mode (SimLoop)"],
 }
-BUDGET = {"quick": 28, "thorough": 600}
+BUDGET = {"quick": 40, "thorough": 600}
 SYNC_APIS = ["render", "generate", "stream", "module"]
 ASYNC_APIS = ["render_async", "generate_async", "render(sync-api)", "make_module_async"]
 
